@@ -47,6 +47,9 @@ pub struct SF {
     pub exp: Exp,
     /// compare only if the implementation reports this field (optional list elements)
     pub if_reported: bool,
+    /// for scaled fields at their sentinel: what the scaling formula would give (a present value
+    /// different from this is a VALUE defect as well as a presence defect)
+    pub formula: Option<f64>,
 }
 
 #[derive(Clone, Debug, PartialEq, Eq)]
@@ -260,6 +263,7 @@ impl<'a> B<'a> {
             w: w as u16,
             exp,
             if_reported: self.opt,
+            formula: None,
         });
     }
     fn raw(&self, off: usize, w: usize) -> Option<u64> {
@@ -297,6 +301,9 @@ impl<'a> B<'a> {
                 Exp::Approx(s as f64 / div)
             };
             self.push(id, Class::Scaled, off, w, e);
+            if s == sentinel {
+                self.out.last_mut().unwrap().formula = Some(s as f64 / div);
+            }
         }
     }
     /// unsigned scaled value, absent at `sentinel` (if any)
@@ -308,6 +315,9 @@ impl<'a> B<'a> {
                 Exp::Approx(v as f64 / div)
             };
             self.push(id, Class::Scaled, off, w, e);
+            if Some(v) == sentinel {
+                self.out.last_mut().unwrap().formula = Some(v as f64 / div);
+            }
         }
     }
     /// optional unsigned: absent exactly at `sentinel`, raw value passed through otherwise
@@ -878,6 +888,19 @@ pub fn compare(exp: &Expectation, got: &[(Fid, Val)], out: &mut Vec<Mismatch>) {
                         expected: exp_show(&sf.exp),
                         observed: v.show(),
                     });
+                    // "not available" reported as a present value that is not even raw/div: the
+                    // scaling itself is wrong too (C10)
+                    if let (Some(fv), Val::F(g)) = (sf.formula, v) {
+                        if !approx_ok(*g, fv) {
+                            out.push(Mismatch {
+                                id: sf.id,
+                                class: sf.class,
+                                clause: "value",
+                                expected: format!("None (and in no case {:?}: the scaling formula gives {:?})", g, fv),
+                                observed: v.show(),
+                            });
+                        }
+                    }
                 }
             }
         }
